@@ -553,3 +553,436 @@ Proof.
         split; [exact HJ2|]. split; [exact Hsy2|]. split; [rewrite Hall2, Hall1, <- app_assoc; reflexivity|].
         rewrite Hids2, Hids1. reflexivity.
 Qed.
+
+(* ---------- SyncChunks ---------- *)
+Lemma sorted_z_chunk cks c d : sorted_z (alld_of cks) -> In (c, d) cks -> sorted_z d.
+Proof.
+  induction cks as [|[c0 d0] cks IH]; intros Hs Hin; [destruct Hin|].
+  change (alld_of ((c0, d0) :: cks)) with (d0 ++ alld_of cks) in Hs.
+  destruct Hin as [E|Hin]; [injection E as <- <-; apply (sorted_z_app_l _ _ Hs)|].
+  apply IH; [apply (sorted_z_app_r _ _ Hs)|exact Hin].
+Qed.
+
+Lemma last_default_irrel (d : list Z) a b : d <> [] -> last d a = last d b.
+Proof. intros H. destruct (exists_last H) as (l & x & ->). rewrite !last_last. reflexivity. Qed.
+
+Lemma light_fill_inv c d : d <> [] -> sorted_z d -> chunk_invS (light_fill c d) d.
+Proof.
+  intros Hne Hs. unfold light_fill. destruct d as [|ts1 tl] eqn:E; [contradiction|]. rewrite <- E in *.
+  assert (Hl : last d ts1 = lastz d) by (apply last_default_irrel; exact Hne).
+  assert (H1 : ts1 = nth 0 d 0) by (rewrite E; reflexivity).
+  assert (Hle : ts1 <= last d ts1).
+  { rewrite Hl. apply sorted_z_le_last; [exact Hs|]. rewrite E. left. reflexivity. }
+  destruct (last d ts1 <? ts1) eqn:Elt; [apply Z.ltb_lt in Elt; lia|].
+  split; [|cbn; intros _ rs Hr; discriminate].
+  intros i Hi. cbn [k_min k_max]. pose proof (dnth_In d i Hi) as Hin. split.
+  - rewrite H1. apply sorted_z_first_le; assumption.
+  - rewrite Hl. apply sorted_z_le_last; assumption.
+Qed.
+
+Definition sync_info (ci : cindex) (ck : Z * list Z) : chk_info :=
+  match find_chunk ci (fst ck) with Some k => k | None => light_fill (fst ck) (snd ck) end.
+Lemma ci_sync_map ci cks : ci_sync ci cks = map (sync_info ci) cks.
+Proof. reflexivity. Qed.
+Lemma sync_info_id ci ck : k_id (sync_info ci ck) = fst ck.
+Proof.
+  unfold sync_info. destruct (find_chunk ci (fst ck)) as [k|] eqn:E; [apply (find_chunk_some _ _ _ E)|].
+  unfold light_fill. destruct (snd ck) as [|t tl]; [reflexivity|]. destruct (last (t :: tl) t <? t); reflexivity.
+Qed.
+Lemma find_chunk_map_sync ci cks c d : NoDup (ids_of cks) -> In (c, d) cks ->
+  find_chunk (map (sync_info ci) cks) c = Some (sync_info ci (c, d)).
+Proof.
+  induction cks as [|[c0 d0] cks IH]; cbn [map find_chunk ids_of]; intros Hnd Hin; [destruct Hin|].
+  rewrite sync_info_id. cbn [fst]. inversion Hnd as [|x0 l0 Hni Hnd']; subst.
+  destruct Hin as [E|Hin].
+  - injection E as <- <-. rewrite Z.eqb_refl. reflexivity.
+  - destruct (Z.eqb_spec c0 c) as [->|_]; [exfalso; apply Hni; apply (In_ids _ _ _ Hin)|]. apply IH; assumption.
+Qed.
+
+Lemma sync_inv st : J st -> J (mkp (p_chunks st) (ci_sync (p_ci st) (p_chunks st)) (p_queue st)) /\
+  synced (mkp (p_chunks st) (ci_sync (p_ci st) (p_chunks st)) (p_queue st)).
+Proof.
+  intros [Hids Hcne Hsorted Hi64 Hinv]. split.
+  - constructor; cbn [p_chunks p_ci]; try assumption.
+    intros c d k Hin Hf. rewrite ci_sync_map, (find_chunk_map_sync _ _ c d (inc_ids_NoDup _ Hids) Hin) in Hf.
+    injection Hf as <-. unfold sync_info. cbn [fst snd].
+    destruct (find_chunk (p_ci st) c) as [k0|] eqn:E; [apply (Hinv c d k0 Hin E)|].
+    apply light_fill_inv; [apply (Hcne c d Hin)|apply (sorted_z_chunk _ c d Hsorted Hin)].
+  - unfold synced. cbn [p_ci p_chunks]. rewrite ci_sync_map, map_map. unfold ids_of. apply map_ext.
+    intros ck. apply sync_info_id.
+Qed.
+
+(* ---------- rebuildIndexInt (repaired segment max) on a sorted chunk ---------- *)
+Lemma dnth_sorted d i j : sorted_z d -> 0 <= i <= j -> j < len d -> dnth d i <= dnth d j.
+Proof. intros H Hij Hj. unfold dnth, len in *. apply H; lia. Qed.
+
+Lemma dnth_mid (done rest : list Z) ts : dnth (done ++ ts :: rest) (len done) = ts.
+Proof. unfold dnth, len. rewrite Nat2Z.id. rewrite app_nth2 by lia. rewrite Nat.sub_diag. reflexivity. Qed.
+
+Definition root_inv (d : list Z) (pos0 : Z) (root : list rec) : Prop :=
+  root <> [] /\ sorted_ts root /\
+  forall r, In r root -> rec_okS d r /\ (forall i, pos0 <= i < len d -> r_ts r <= dnth d i).
+
+Lemma apply_ts_cover ri ts : fst (apply_ts ri ts) <= fst ri /\ snd ri <= snd (apply_ts ri ts) /\
+  fst (apply_ts ri ts) <= ts <= snd (apply_ts ri ts).
+Proof.
+  unfold apply_ts. cbn [fst snd].
+  destruct (ts <? fst ri) eqn:E1; [apply Z.ltb_lt in E1|apply Z.ltb_ge in E1];
+  destruct (snd ri <? ts) eqn:E2; [apply Z.ltb_lt in E2|apply Z.ltb_ge in E2|apply Z.ltb_lt in E2|apply Z.ltb_ge in E2]; lia.
+Qed.
+
+Lemma root_inv_add d root pos0 pos1 :
+  sorted_z d -> d <> [] -> root_inv d pos0 root -> 0 <= pos0 < pos1 -> pos1 <= len d ->
+  root_inv d pos1 (flat_add root (mkrec (dnth d pos0) pos0) (mkrec (dnth d (pos1 - 1)) pos1)).
+Proof.
+  intros Hs Hne (Hrn & Hso & Ha) Hp Hl.
+  assert (Hle : forall r, In r root -> r_ts r <= dnth d pos0) by (intros r Hr; apply (Ha r Hr); lia).
+  rewrite (flat_add_append root (mkrec (dnth d pos0) pos0) (mkrec (dnth d (pos1 - 1)) pos1) Hso Hrn Hle).
+  assert (Hmono : dnth d pos0 <= dnth d (pos1 - 1)) by (apply dnth_sorted; [exact Hs|lia|lia]).
+  split; [destruct root; [contradiction|discriminate]|]. split.
+  - apply sorted_ts_app_one; [exact Hso|]. intros r Hr. specialize (Hle r Hr). cbn [r_ts]. lia.
+  - intros r Hr. apply in_app_or in Hr as [Hr|[<-|[]]].
+    + destruct (Ha r Hr) as [Hok Hge]. split; [exact Hok|]. intros i Hi. apply Hge. lia.
+    + split; [split; [split|split]|]; cbn [r_ts r_idx].
+      * intros i Hi Hli. apply dnth_sorted; [exact Hs|lia|lia].
+      * intros i Hi Hli. apply dnth_sorted; [exact Hs|lia|lia].
+      * apply sorted_z_le_last; [exact Hs|apply dnth_In; lia].
+      * lia.
+      * intros i Hi. apply dnth_sorted; [exact Hs|lia|lia].
+Qed.
+
+Lemma rebuild_loop_inv d : sorted_z d -> Forall int64_ok d -> d <> [] ->
+  forall rest done root rinfo seg pos0,
+  d = done ++ rest -> 0 <= pos0 <= len done -> root_inv d pos0 root ->
+  (pos0 = len done -> seg = seg_init true) ->
+  (pos0 < len done -> seg = (dnth d pos0, dnth d (len done - 1))) ->
+  (forall i, 0 <= i < len done -> fst rinfo <= dnth d i <= snd rinfo) ->
+  let res := rebuild_loop true rest root rinfo seg pos0 (len done) in
+  (snd res <> [] /\ sorted_ts (snd res) /\ forall r, In r (snd res) -> rec_okS d r) /\
+  (forall i, 0 <= i < len d -> fst (fst res) <= dnth d i <= snd (fst res)).
+Proof.
+  intros Hs Hint Hne. induction rest as [|ts tl IH]; intros done root rinfo seg pos0 Hd Hp Hroot Hseg0 Hseg1 Hri.
+  - rewrite app_nil_r in Hd. subst done. cbn [rebuild_loop fst snd]. split; [|exact Hri].
+    unfold write_index_interval. destruct (Z.eqb_spec pos0 (len d)) as [E|E].
+    + destruct Hroot as (Hn & Hso & Ha). split; [exact Hn|]. split; [exact Hso|]. intros r Hr. apply (Ha r Hr).
+    + rewrite (Hseg1 ltac:(lia)). cbn [fst snd].
+      destruct (root_inv_add d root pos0 (len d) Hs Hne Hroot ltac:(lia) ltac:(lia)) as (Hn & Hso & Ha).
+      split; [exact Hn|]. split; [exact Hso|]. intros r Hr. apply (Ha r Hr).
+  - cbn [rebuild_loop].
+    assert (Hts : dnth d (len done) = ts) by (rewrite Hd; apply dnth_mid).
+    assert (Hlen : len d = len done + 1 + len tl).
+    { rewrite Hd, len_app. unfold len. cbn [length]. lia. }
+    pose proof (len_nonneg tl) as Htl. pose proof (len_nonneg done) as Hdn.
+    assert (Hd' : d = (done ++ [ts]) ++ tl) by (rewrite <- app_assoc; exact Hd).
+    assert (Hlen' : len (done ++ [ts]) = len done + 1) by (rewrite len_app; reflexivity).
+    assert (Hi64 : int64_ok ts).
+    { rewrite Forall_forall in Hint. apply Hint. rewrite <- Hts. apply dnth_In. lia. }
+    assert (Hseg' : apply_ts seg ts = (dnth d pos0, ts)).
+    { destruct (Z.eq_dec pos0 (len done)) as [E|E].
+      - rewrite (Hseg0 E). unfold seg_init, apply_ts. cbn [fst snd]. destruct Hi64 as [H1 H2].
+        rewrite E, Hts. f_equal.
+        + destruct (ts <? max_int64) eqn:E1; [reflexivity|apply Z.ltb_ge in E1; lia].
+        + destruct (min_int64 <? ts) eqn:E2; [reflexivity|apply Z.ltb_ge in E2; lia].
+      - rewrite (Hseg1 ltac:(lia)). unfold apply_ts. cbn [fst snd].
+        assert (H1 : dnth d pos0 <= ts) by (rewrite <- Hts; apply dnth_sorted; [exact Hs|lia|lia]).
+        assert (H2 : dnth d (len done - 1) <= ts) by (rewrite <- Hts; apply dnth_sorted; [exact Hs|lia|lia]).
+        destruct (ts <? dnth d pos0) eqn:E1; [apply Z.ltb_lt in E1; lia|].
+        destruct (dnth d (len done - 1) <? ts) eqn:E2; [reflexivity|]. apply Z.ltb_ge in E2. f_equal. lia. }
+    assert (Hri' : forall i, 0 <= i < len (done ++ [ts]) -> fst (apply_ts rinfo ts) <= dnth d i <= snd (apply_ts rinfo ts)).
+    { intros i Hi. rewrite Hlen' in Hi. destruct (apply_ts_cover rinfo ts) as (H1 & H2 & H3).
+      destruct (Z.eq_dec i (len done)) as [->|Hn]; [rewrite Hts; exact H3|]. specialize (Hri i ltac:(lia)). lia. }
+    replace (len done + 1) with (len (done ++ [ts])) by exact Hlen'.
+    destruct (len (done ++ [ts]) - pos0 <? sparse_space) eqn:Esp.
+    + apply (IH (done ++ [ts]) root (apply_ts rinfo ts) (apply_ts seg ts) pos0 Hd'); try assumption.
+      * lia.
+      * intros E. lia.
+      * intros _. rewrite Hseg', Hlen'. replace (len done + 1 - 1) with (len done) by lia. rewrite Hts. reflexivity.
+    + rewrite Hseg'. unfold write_index_interval.
+      destruct (Z.eqb_spec pos0 (len (done ++ [ts]))) as [E|E]; [lia|]. cbn [fst snd].
+      assert (Hrec : mkrec ts (len (done ++ [ts])) = mkrec (dnth d (len (done ++ [ts]) - 1)) (len (done ++ [ts]))).
+      { rewrite Hlen'. replace (len done + 1 - 1) with (len done) by lia. rewrite Hts. reflexivity. }
+      rewrite Hrec.
+      apply (IH (done ++ [ts]) _ (apply_ts rinfo ts) (seg_init true) (len (done ++ [ts])) Hd'); try assumption.
+      * lia.
+      * apply root_inv_add; try assumption; lia.
+      * intros _. reflexivity.
+      * intros Hlt. lia.
+Qed.
+
+Lemma rebuild_int_inv d : sorted_z d -> Forall int64_ok d -> d <> [] ->
+  exists ri root, rebuild_int true d = (ri, Some root) /\
+    (root <> [] /\ sorted_ts root /\ forall r, In r root -> rec_okS d r) /\
+    (forall i, 0 <= i < len d -> fst ri <= dnth d i <= snd ri).
+Proof.
+  intros Hs Hint Hne. unfold rebuild_int. destruct d as [|ts0 tl] eqn:E; [contradiction|]. rewrite <- E in *.
+  rewrite flat_add_nil.
+  assert (H0 : dnth d 0 = ts0) by (rewrite E; reflexivity).
+  pose proof (len_pos d Hne) as Hlp.
+  assert (Hroot0 : root_inv d 0 [mkrec ts0 0; mkrec ts0 0]).
+  { split; [discriminate|]. split; [apply sorted_ts_two; cbn; lia|].
+    assert (Hr : rec_okS d (mkrec ts0 0) /\ (forall i, 0 <= i < len d -> r_ts (mkrec ts0 0) <= dnth d i)).
+    { split; [split; [split|split]|]; cbn [r_ts r_idx]; try lia.
+      - intros i Hi Hl. rewrite <- H0. apply dnth_sorted; [exact Hs|lia|lia].
+      - rewrite <- H0. apply sorted_z_le_last; [exact Hs|apply dnth_In; lia].
+      - intros i Hi. rewrite <- H0. apply dnth_sorted; [exact Hs|lia|lia]. }
+    intros r [<-|[<-|[]]]; exact Hr. }
+  pose proof (rebuild_loop_inv d Hs Hint Hne d [] [mkrec ts0 0; mkrec ts0 0] (ts0, ts0) (seg_init true) 0 eq_refl) as H.
+  change (len []) with 0 in H. specialize (H ltac:(lia) Hroot0 (fun _ => eq_refl) ltac:(intros; lia) ltac:(intros; lia)).
+  cbn zeta in H.
+  destruct (rebuild_loop true d [mkrec ts0 0; mkrec ts0 0] (ts0, ts0) (seg_init true) 0 0) as [ri root].
+  exists ri, root. cbn [fst snd] in H. destruct H as [H1 H2]. split; [reflexivity|]. split; assumption.
+Qed.
+
+(* ---------- the rebuilder ---------- *)
+Lemma find_chunk_replace ci k' c :
+  find_chunk (replace_chunk ci k') c =
+  if k_id k' =? c then match find_chunk ci c with Some _ => Some k' | None => None end else find_chunk ci c.
+Proof.
+  induction ci as [|a ci IH]; cbn [replace_chunk find_chunk]; [destruct (k_id k' =? c); reflexivity|].
+  destruct (Z.eqb_spec (k_id a) (k_id k')) as [E|E]; cbn [find_chunk].
+  - rewrite E. destruct (Z.eqb_spec (k_id k') c) as [E'|E']; [reflexivity|reflexivity].
+  - destruct (Z.eqb_spec (k_id a) c) as [E1|E1].
+    + destruct (Z.eqb_spec (k_id k') c) as [E2|E2]; [congruence|reflexivity].
+    + exact IH.
+Qed.
+Lemma replace_chunk_ids ci k' : map k_id (replace_chunk ci k') = map k_id ci.
+Proof.
+  induction ci as [|a ci IH]; cbn [replace_chunk map]; [reflexivity|].
+  destruct (Z.eqb_spec (k_id a) (k_id k')) as [E|E]; cbn [map]; [rewrite E; reflexivity|rewrite IH; reflexivity].
+Qed.
+
+Lemma ci_rebuild_ids ci cid d : map k_id (ci_rebuild true ci cid d) = map k_id ci.
+Proof.
+  unfold ci_rebuild. destruct (find_chunk ci cid) as [k|]; [|reflexivity].
+  destruct (match k_root k with Some _ => negb (k_bad k) | None => false end); [reflexivity|].
+  destruct (rebuild_int true d) as [ri root]. apply replace_chunk_ids.
+Qed.
+
+Lemma hull_update_cover k mn mx :
+  k_min (hull_update k mn mx) <= mn /\ mx <= k_max (hull_update k mn mx).
+Proof.
+  unfold hull_update. cbn [k_min k_max].
+  destruct (mn <? k_min k) eqn:E1; [apply Z.ltb_lt in E1|apply Z.ltb_ge in E1];
+  destruct (k_max k <? mx) eqn:E2; [apply Z.ltb_lt in E2|apply Z.ltb_ge in E2|apply Z.ltb_lt in E2|apply Z.ltb_ge in E2]; lia.
+Qed.
+
+Lemma ci_rebuild_inv ci cid d c d0 k :
+  sorted_z d -> Forall int64_ok d -> d <> [] ->
+  (forall k0, find_chunk ci cid = Some k0 -> chunk_invS k0 d) ->
+  (c = cid -> d0 = d) ->
+  (forall k0, find_chunk ci c = Some k0 -> chunk_invS k0 d0) ->
+  find_chunk (ci_rebuild true ci cid d) c = Some k -> chunk_invS k d0.
+Proof.
+  intros Hs Hint Hne Hold Hsame Hc Hf. unfold ci_rebuild in Hf.
+  destruct (find_chunk ci cid) as [k1|] eqn:E1; [|apply Hc; exact Hf].
+  destruct (match k_root k1 with Some _ => negb (k_bad k1) | None => false end); [apply Hc; exact Hf|].
+  destruct (rebuild_int_inv d Hs Hint Hne) as (ri & root & Er & (Hrn & Hso & Ha) & Hcov).
+  rewrite Er in Hf. rewrite find_chunk_replace in Hf.
+  destruct (hull_update_fields (mkinfo (k_id k1) (k_min k1) (k_max k1) (Some root) 0 false) (fst ri) (snd ri)) as (Eid & Eroot & Ebad & _).
+  rewrite Eid in Hf. cbn [k_id] in Hf. destruct (find_chunk_some _ _ _ E1) as [Hk1 _].
+  destruct (Z.eqb_spec (k_id k1) c) as [E|E]; [|apply Hc; exact Hf].
+  assert (Hcc : c = cid) by congruence. rewrite (Hsame Hcc) in *. rewrite Hcc in Hf. rewrite E1 in Hf. injection Hf as <-.
+  split.
+  - intros i Hi. destruct (hull_update_cover (mkinfo (k_id k1) (k_min k1) (k_max k1) (Some root) 0 false) (fst ri) (snd ri)) as [H1 H2].
+    specialize (Hcov i Hi). lia.
+  - rewrite Eroot, Ebad. cbn [k_root k_bad]. intros _ rs Hr. injection Hr as <-. split; [exact Hrn|]. split; [exact Hso|exact Ha].
+Qed.
+
+Lemma serve_inv st : J st -> J (serve fixed_variant st) /\ (synced st -> synced (serve fixed_variant st)).
+Proof.
+  intros [Hids Hcne Hsorted Hi64 Hinv]. unfold serve. cbn [fix_zero fixed_variant].
+  set (cks := p_chunks st) in *.
+  assert (Hgen : forall q ci,
+            (forall c d k, In (c, d) cks -> find_chunk ci c = Some k -> chunk_invS k d) ->
+            let ci' := fold_left (fun ci cid => if has_chunk cks cid then ci_rebuild true ci cid (chunk_data cks cid) else ci) q ci in
+            (forall c d k, In (c, d) cks -> find_chunk ci' c = Some k -> chunk_invS k d) /\ map k_id ci' = map k_id ci).
+  { induction q as [|cid q IH]; intros ci Hci; [cbn; auto|]. cbn [fold_left].
+    destruct (has_chunk cks cid) eqn:Eh; [|apply IH; exact Hci].
+    destruct (has_chunk_In _ _ Eh) as (dc & Hdc).
+    assert (Edc : chunk_data cks cid = dc) by (apply chunk_data_In; [apply inc_ids_NoDup; exact Hids|exact Hdc]).
+    rewrite Edc.
+    assert (Hsd : sorted_z dc) by (apply (sorted_z_chunk cks cid dc Hsorted Hdc)).
+    assert (Hid : Forall int64_ok dc).
+    { rewrite Forall_forall in *. intros x Hx. apply Hi64. apply (In_alld cks cid dc x Hdc Hx). }
+    specialize (IH (ci_rebuild true ci cid dc)). destruct IH as [IH1 IH2].
+    - intros c d k Hin Hf. apply (ci_rebuild_inv ci cid dc c d k Hsd Hid (Hcne cid dc Hdc)); try assumption.
+      + intros k0 Hk0. apply (Hci cid dc k0 Hdc Hk0).
+      + intros ->. apply (f_equal (fun x => x)). rewrite <- (chunk_data_In cks cid d (inc_ids_NoDup _ Hids) Hin). exact Edc.
+      + intros k0 Hk0. apply (Hci c d k0 Hin Hk0).
+    - split; [exact IH1|]. rewrite IH2. apply ci_rebuild_ids. }
+  destruct (Hgen (p_queue st) (p_ci st) Hinv) as [H1 H2]. split.
+  - constructor; cbn [p_chunks p_ci]; assumption.
+  - unfold synced. cbn [p_ci p_chunks]. intros Hs. rewrite H2. exact Hs.
+Qed.
+
+(* ---------- histories ---------- *)
+Lemma J_queue st q : J st -> J (mkp (p_chunks st) (p_ci st) q).
+Proof. intros [H1 H2 H3 H4 H5]. constructor; assumption. Qed.
+
+Lemma range_read_state v st o1 o2 :
+  p_chunks (snd (range_read v st o1 o2)) = p_chunks st /\
+  p_ci (snd (range_read v st o1 o2)) = ci_sync (p_ci st) (p_chunks st).
+Proof.
+  unfold range_read.
+  destruct (read_chunks v (ci_sync (p_ci st) (p_chunks st)) (eff_t1 v o1) (eff_t2 o2) (ci_sync (p_ci st) (p_chunks st)) (p_chunks st) (p_queue st)) as [evs q'].
+  cbn. split; reflexivity.
+Qed.
+
+Definition next_dropped (dropped : bool) (o : op) : bool :=
+  match o with HDrop => true | HServe => dropped | _ => false end.
+
+Lemma step_inv o st dropped :
+  J st -> (dropped = false -> synced st) -> op_ok o ->
+  (forall segs, o = HBatch segs -> dropped = false /\ segs_disc (ids_of (p_chunks st)) true segs) ->
+  sorted_z (alld_of (p_chunks st) ++ op_data o) ->
+  let st' := step fixed_variant st o in
+  J st' /\ (next_dropped dropped o = false -> synced st') /\
+  alld_of (p_chunks st') = alld_of (p_chunks st) ++ op_data o /\
+  ids_of (p_chunks st') = match o with HBatch segs => ids_after (ids_of (p_chunks st)) segs | _ => ids_of (p_chunks st) end.
+Proof.
+  intros HJ Hsy Hok Hb Hso. destruct o as [segs| | | |o1 o2]; cbn [step op_data next_dropped] in *.
+  - destruct (Hb segs eq_refl) as [Hd Hdisc].
+    destruct (run_segs_inv fixed_variant eq_refl segs st iw_init [] true HJ (Hsy Hd)) as (H1 & H2 & H3 & H4); auto.
+    + left. split; reflexivity.
+    + intros x [].
+  - rewrite app_nil_r. destruct (serve_inv st HJ) as [H1 H2]. split; [exact H1|]. split; [intros E; apply H2; apply Hsy; exact E|].
+    split; reflexivity.
+  - rewrite app_nil_r. destruct (sync_inv st HJ) as [H1 H2]. split; [exact H1|]. split; [intros _; exact H2|]. split; reflexivity.
+  - rewrite app_nil_r. split; [|split; [discriminate|split; reflexivity]].
+    destruct HJ as [H1 H2 H3 H4 H5]. constructor; cbn [p_chunks p_ci]; try assumption. intros c d k _ Hf. discriminate.
+  - rewrite app_nil_r. destruct (range_read_state fixed_variant st o1 o2) as [Ec Ei].
+    destruct (sync_inv st HJ) as [H1 H2].
+    set (st' := snd (range_read fixed_variant st o1 o2)) in *.
+    assert (Est : st' = mkp (p_chunks st) (ci_sync (p_ci st) (p_chunks st)) (p_queue st')).
+    { destruct st' as [c i q]. cbn [p_chunks p_ci p_queue] in *. subst. reflexivity. }
+    rewrite Est. split; [apply (J_queue _ _ H1)|]. split; [intros _; exact H2|]. split; reflexivity.
+Qed.
+
+Lemma run_inv : forall h st dropped,
+  J st -> (dropped = false -> synced st) -> Forall op_ok h ->
+  hist_disc (ids_of (p_chunks st)) h -> nwad dropped h -> sorted_z (alld_of (p_chunks st) ++ hist_data h) ->
+  J (fold_left (step fixed_variant) h st) /\
+  alld_of (p_chunks (fold_left (step fixed_variant) h st)) = alld_of (p_chunks st) ++ hist_data h.
+Proof.
+  induction h as [|o h IH]; intros st dropped HJ Hsy Hok Hdisc Hnw Hso.
+  - cbn. rewrite app_nil_r. auto.
+  - inversion Hok as [|x l Ho Hh]; subst. cbn [fold_left hist_data flat_map] in *.
+    assert (Hso1 : sorted_z (alld_of (p_chunks st) ++ op_data o)) by (rewrite app_assoc in Hso; apply (sorted_z_app_l _ _ Hso)).
+    assert (Hb : forall segs, o = HBatch segs -> dropped = false /\ segs_disc (ids_of (p_chunks st)) true segs).
+    { intros segs ->. cbn in Hdisc, Hnw. destruct Hdisc as [H1 _]. destruct Hnw as [H2 _]. split; assumption. }
+    destruct (step_inv o st dropped HJ Hsy Ho Hb Hso1) as (HJ1 & Hsy1 & Hall1 & Hids1).
+    destruct (IH (step fixed_variant st o) (next_dropped dropped o) HJ1 Hsy1 Hh) as [HJ2 Hall2].
+    + rewrite Hids1. destruct o; cbn in Hdisc; try exact Hdisc. destruct Hdisc as [_ H]. exact H.
+    + destruct o; cbn in Hnw |- *; try exact Hnw. destruct Hnw as [_ H]. exact H.
+    + rewrite Hall1, <- app_assoc. exact Hso.
+    + split; [exact HJ2|]. rewrite Hall2, Hall1, <- app_assoc. reflexivity.
+Qed.
+
+Lemma J_init : J p_init.
+Proof.
+  constructor; cbn.
+  - apply inc_ids_nil.
+  - intros c d [].
+  - intros i j _ H. cbn in H. lia.
+  - constructor.
+  - intros c d k [].
+Qed.
+
+Lemma combine_map_In {A B} (f : A -> B) (l : list A) b a : In (b, a) (combine (map f l) l) -> b = f a /\ In a l.
+Proof.
+  induction l as [|x l IH]; cbn; intros H; [destruct H|].
+  destruct H as [E|H]; [injection E as <- <-; split; [reflexivity|left; reflexivity]|].
+  destruct (IH H) as [H1 H2]. split; [exact H1|right; exact H2].
+Qed.
+
+Lemma len_le_alld cks c d : In (c, d) cks -> len d <= Z.of_nat (length (alld_of cks)).
+Proof.
+  induction cks as [|[c0 d0] cks IH]; intros H; [destruct H|].
+  change (alld_of ((c0, d0) :: cks)) with (d0 ++ alld_of cks). rewrite app_length.
+  destruct H as [E|H]; [injection E as <- <-; unfold len; lia|]. specialize (IH H). lia.
+Qed.
+
+(* (B)+(A): the fully repaired variant, every history with non-decreasing timestamps *)
+Theorem complete_fixed hist o1 o2 :
+  Forall op_ok hist -> op_ok (HRead o1 o2) ->
+  hist_sorted hist -> hist_disciplined hist -> hist_small hist -> no_write_after_drop hist ->
+  complete_at fixed_variant (run fixed_variant hist) o1 o2.
+Proof.
+  intros Hok [Hr1 Hr2] Hsorted Hdisc Hsmall Hnw.
+  destruct (run_inv hist p_init false J_init (fun _ => eq_refl) Hok Hdisc Hnw Hsorted) as [HJ Hall].
+  fold (run fixed_variant hist) in *. set (st := run fixed_variant hist) in *. cbn [p_init p_chunks alld_of flat_map app] in Hall.
+  destruct (sync_inv st HJ) as [HJs Hsy]. pose proof HJ as [Hids Hcne Hso Hi64 Hinv].
+  apply complete_of_inv; try reflexivity; try assumption.
+  - intros cid d Hin. rewrite Forall_forall in *. intros x Hx. apply Hi64. apply (In_alld _ cid d x Hin Hx).
+  - split; [rewrite ci_sync_map, map_length; reflexivity|].
+    intros k cid d Hin. rewrite ci_sync_map in Hin. destruct (combine_map_In _ _ _ _ Hin) as [-> Hin'].
+    split; [apply sync_info_id|]. split; [rewrite ci_sync_map; apply find_chunk_map_sync; [apply inc_ids_NoDup; exact Hids|exact Hin']|].
+    split.
+    + apply chunk_invS_weaken. destruct HJs as [_ _ _ _ Hinv']. cbn [p_chunks p_ci] in Hinv'.
+      apply (Hinv' cid d); [exact Hin'|]. rewrite ci_sync_map. apply find_chunk_map_sync; [apply inc_ids_NoDup; exact Hids|exact Hin'].
+    + pose proof (len_le_alld _ cid d Hin') as Hl. rewrite Hall in Hl. unfold hist_small in Hsmall. lia.
+Qed.
+
+(* ---------- non-vacuity ---------- *)
+Definition nonvac_hist : list op :=
+  [HBatch [mkseg 1 false (repeat 0 3 ++ repeat 5 246 ++ [10])];
+   HBatch [mkseg 1 true (repeat 10 250)];
+   HBatch [mkseg 1 false (repeat 10 5); mkseg 2 false (repeat 10 245 ++ repeat 20 6)];
+   HRead (Some 10) (Some 10);
+   HDrop; HSync; HRead (Some 7) None; HServe;
+   HBatch [mkseg 2 false (repeat 20 250)]].
+
+Fixpoint segs_discb (ids : list Z) (first : bool) (segs : list seg) : bool :=
+  match segs with
+  | [] => true
+  | sg :: tl =>
+      match sg_ts sg with
+      | [] => segs_discb ids first tl
+      | _ => (first && (match ids with [] => false | _ => last ids 0 =? sg_cid sg end) && segs_discb ids false tl)
+             || (forallb (fun c => c <? sg_cid sg) ids && segs_discb (ids ++ [sg_cid sg]) false tl)
+      end
+  end.
+Lemma segs_discb_ok segs : forall ids first, segs_discb ids first segs = true -> segs_disc ids first segs.
+Proof.
+  induction segs as [|sg tl IH]; intros ids first H; [exact I|]. cbn [segs_discb segs_disc] in *.
+  destruct (sg_ts sg); [apply IH; exact H|].
+  apply orb_true_iff in H as [H|H].
+  - left. apply andb_true_iff in H as [H H3]. apply andb_true_iff in H as [H1 H2].
+    split; [destruct first; [reflexivity|discriminate]|]. split; [|apply IH; exact H3].
+    unfold last_id. destruct ids; [discriminate|]. apply Z.eqb_eq in H2. rewrite H2. reflexivity.
+  - right. apply andb_true_iff in H as [H1 H2]. split; [|apply IH; exact H2].
+    intros c Hc. rewrite forallb_forall in H1. specialize (H1 c Hc). apply Z.ltb_lt in H1. exact H1.
+Qed.
+Fixpoint hist_discb (ids : list Z) (h : list op) : bool :=
+  match h with
+  | [] => true
+  | HBatch segs :: tl => segs_discb ids true segs && hist_discb (ids_after ids segs) tl
+  | _ :: tl => hist_discb ids tl
+  end.
+Lemma hist_discb_ok h : forall ids, hist_discb ids h = true -> hist_disc ids h.
+Proof.
+  induction h as [|o h IH]; intros ids H; [exact I|]. destruct o; cbn [hist_discb hist_disc] in *; try (apply IH; exact H).
+  apply andb_true_iff in H as [H1 H2]. split; [apply segs_discb_ok; exact H1|apply IH; exact H2].
+Qed.
+Fixpoint nwadb (dropped : bool) (h : list op) : bool :=
+  match h with
+  | [] => true
+  | HDrop :: tl => nwadb true tl
+  | HBatch _ :: tl => negb dropped && nwadb false tl
+  | HSync :: tl => nwadb false tl
+  | HRead _ _ :: tl => nwadb false tl
+  | HServe :: tl => nwadb dropped tl
+  end.
+Lemma nwadb_ok h : forall dropped, nwadb dropped h = true -> nwad dropped h.
+Proof.
+  induction h as [|o h IH]; intros dropped H; [exact I|]. destruct o; cbn [nwadb nwad] in *; try (apply IH; exact H).
+  apply andb_true_iff in H as [H1 H2]. split; [destruct dropped; [discriminate|reflexivity]|apply IH; exact H2].
+Qed.
+
+Lemma nonvac_ok : hist_sorted nonvac_hist /\ hist_disciplined nonvac_hist /\ no_write_after_drop nonvac_hist /\
+  length (fst (range_read fixed_variant (run fixed_variant nonvac_hist) (Some 0) (Some 20))) = 1006%nat.
+Proof.
+  split; [apply sorted_zb_ok; vm_compute; reflexivity|].
+  split; [apply hist_discb_ok; vm_compute; reflexivity|].
+  split; [apply nwadb_ok; vm_compute; reflexivity|]. vm_compute. reflexivity.
+Qed.
